@@ -79,7 +79,7 @@ fn bitmap(rng: &mut Rng) -> Vec<u8> {
     bitmap_of(&ts)
 }
 
-fn svcparams(rng: &mut Rng) -> Vec<u8> {
+pub fn svcparams(rng: &mut Rng) -> Vec<u8> {
     // keys strictly increasing; known keys get well-formed values
     let n = rng.range(0, 5);
     let mut keys: Vec<u16> = (0..n)
@@ -142,7 +142,7 @@ fn svcparams(rng: &mut Rng) -> Vec<u8> {
     out
 }
 
-fn options(rng: &mut Rng) -> Vec<u8> {
+pub fn options(rng: &mut Rng) -> Vec<u8> {
     let mut out = Vec::new();
     for _ in 0..rng.range(0, 4) {
         let (code, val): (u16, Vec<u8>) = match rng.below(12) {
@@ -170,7 +170,8 @@ fn options(rng: &mut Rng) -> Vec<u8> {
                 // cookie: 8 client + (0 or 8..32 server)
                 let mut v = rng.bytes(8);
                 if rng.bool() {
-                    v.extend(rng.bytes(rng.clone().range(8, 32)));
+                    let l = match rng.below(4) { 0 => 8, 1 => 32, _ => rng.range(8, 32) };
+                    v.extend(rng.bytes(l));
                 }
                 (10, v)
             }
@@ -190,6 +191,73 @@ fn options(rng: &mut Rng) -> Vec<u8> {
             }
             _ => (rng.range(20, 65000) as u16, opaque(rng, 0, 30)),
         };
+        out.extend_from_slice(&code.to_be_bytes());
+        out.extend_from_slice(&(val.len() as u16).to_be_bytes());
+        out.extend_from_slice(&val);
+    }
+    out
+}
+
+const HOSTILE_LENS: [usize; 20] = [0, 1, 2, 3, 4, 5, 6, 7, 8, 9, 12, 15, 16, 17, 20, 24, 31, 32, 33, 48];
+
+/// SVCB parameters whose framing is intact but whose values need not satisfy
+/// what their keys demand (wrong widths for port, hints, mandatory, alpn ...),
+/// with keys mostly, not always, in ascending order.
+pub fn hostile_svcparams(rng: &mut Rng) -> Vec<u8> {
+    let n = rng.range(1, 5);
+    let mut keys: Vec<u16> = (0..n).map(|_| if rng.chance(1, 8) { rng.u16() } else { rng.below(11) as u16 }).collect();
+    if !rng.chance(1, 6) {
+        keys.sort_unstable();
+        if !rng.chance(1, 6) {
+            keys.dedup();
+        }
+    }
+    let mut out = Vec::new();
+    for k in keys {
+        let val: Vec<u8> = match rng.below(6) {
+            // well-formed for the key now and then, so that later values are reached
+            0 => match k {
+                1 => vec![2, b'h', b'2'],
+                3 => vec![1, 187],
+                4 => rng.bytes(4),
+                6 => rng.bytes(16),
+                _ => vec![],
+            },
+            // length-prefixed pieces (alpn-like) that may overrun
+            1 => {
+                let mut v = Vec::new();
+                for _ in 0..rng.range(1, 3) {
+                    let l = rng.range(0, 6);
+                    v.push(if rng.chance(1, 4) { (l + rng.range(1, 200)) as u8 } else { l as u8 });
+                    v.extend(rng.bytes(l));
+                }
+                v
+            }
+            _ => rng.bytes(*rng.clone().pick(&HOSTILE_LENS)),
+        };
+        out.extend_from_slice(&k.to_be_bytes());
+        out.extend_from_slice(&(val.len() as u16).to_be_bytes());
+        out.extend_from_slice(&val);
+    }
+    out
+}
+
+/// EDNS options whose framing is intact but whose data lengths need not suit their codes.
+pub fn hostile_options(rng: &mut Rng) -> Vec<u8> {
+    let mut out = Vec::new();
+    for _ in 0..rng.range(1, 4) {
+        let code: u16 = if rng.chance(1, 8) { rng.u16() } else { *rng.pick(&[3u16, 5, 6, 7, 8, 9, 10, 11, 12, 13, 14, 15, 16, 17]) };
+        let mut val = rng.bytes(*rng.clone().pick(&HOSTILE_LENS));
+        if code == 8 && !val.is_empty() && rng.bool() {
+            // client subnet: plausible family, arbitrary prefix lengths
+            val[0] = 0;
+            if val.len() > 1 {
+                val[1] = *rng.pick(&[0u8, 1, 2, 3]);
+            }
+            if val.len() > 2 {
+                val[2] = *rng.pick(&[0u8, 1, 7, 8, 24, 32, 33, 64, 128, 129, 255]);
+            }
+        }
         out.extend_from_slice(&code.to_be_bytes());
         out.extend_from_slice(&(val.len() as u16).to_be_bytes());
         out.extend_from_slice(&val);
